@@ -70,8 +70,12 @@ func genC08(cfg Config, emit Emit) error {
 				t.Caps = []ACap{{Can: "nope/run", With: main.Caps[0].With, Nb: [][2]int{}}}
 			case 1: // zero capabilities
 				t.Caps = []ACap{}
-			case 2: // two capabilities
-				t.Caps = append(t.Caps, ACap{Can: "other/thing", With: main.Caps[0].With, Nb: [][2]int{}})
+			case 2: // two capabilities: another one, or the very same one twice
+				if r.Intn(2) == 0 {
+					t.Caps = append(t.Caps, t.Caps[0])
+				} else {
+					t.Caps = append(t.Caps, ACap{Can: "other/thing", With: main.Caps[0].With, Nb: [][2]int{}})
+				}
 			case 3: // same chain, other resource
 				t.Caps = []ACap{{Can: main.Caps[0].Can, With: fmt.Sprintf("@%d", r.Intn(len(w.Principals))), Nb: main.Caps[0].Nb}}
 			case 4: // a stranger without proofs
